@@ -455,7 +455,12 @@ func (e *c05env) completeness(stream []byte, frames []*ref.FrameSpec, res []rdRe
 		}
 	}
 	wit := func() interface{} {
-		return map[string]interface{}{"stream": vh.Hex(stream), "expected_frames": len(frames), "returned_frames": len(got)}
+		var descs []string
+		for _, r := range res {
+			descs = append(descs, fmt.Sprintf("[%d,%d) %s", r.start, r.end, r.desc[:min(len(r.desc), 90)]))
+		}
+		return map[string]interface{}{"stream": vh.Hex(stream), "expected_frames": len(frames), "returned_frames": len(got),
+			"buf_size": e.bufSize, "dialect": e.drw != nil, "key": e.key != nil, "results": descs}
 	}
 	if len(got) != len(frames) {
 		e.rep.Violation("what=missing", "a stream of valid frames separated by non-marker bytes did not yield exactly those frames", wit())
@@ -493,6 +498,13 @@ func TestC05(t *testing.T) {
 	genv, err := newGateEnv(msgs)
 	if err != nil {
 		t.Fatal(err)
+	}
+	// two picked types may share an id (different dialects): generate frames only for the types the dialect really holds
+	msgs = msgs[:0]
+	for _, mi := range all {
+		if genv.layouts[mi.Msg.GetID()] == mi {
+			msgs = append(msgs, mi)
+		}
 	}
 	keyRaw := vh.Sub(seed, "c05-key").Bytes(32)
 	key := frame.NewV2Key(keyRaw)
